@@ -144,7 +144,6 @@ namespace
     int mtx_csr = 0, mtx_bcsr = 0; // fm_mtx write of an array-free CSR/BCSR matrix with rows
     int svb_file = 0;       // SparseVectorBlocked::write_out(mode, filename)
     int dfio_stale = 0;     // DistFileIO::read_combined (serial) keeps stale content for an empty section
-    int exp_null = 0;       // sanitizer build only: fm_exp reader of a length-0 vector binds &data[0] of an empty std::vector
   };
   Hazards hz;
   const char* KEY_EQ_CSR = "operator== of two entry-free (array-free) SparseMatrixCSR matrices with rows*columns>0 dereferences the missing row pointer";
@@ -156,7 +155,6 @@ namespace
   const char* KEY_SVMTX = "SparseVector without entries: fm_mtx cannot be read back (array constructor with empty arrays / size 0)";
   const char* KEY_MTX_CSR = "fm_mtx write_out of an entry-free (array-free) SparseMatrixCSR matrix with rows walks the missing row pointer";
   const char* KEY_MTX_BCSR = "fm_mtx write_out of an entry-free (array-free) SparseMatrixBCSR matrix with rows walks the missing row pointer";
-  const char* KEY_EXPNULL = "fm_exp read of a length-0 DenseVector/DenseVectorBlocked binds &data[0] of an empty std::vector (UBSan only, benign)";
   const char* KEY_DFIO = "DistFileIO::read_combined (serial) does not resize an output vector whose section in the file is empty (stale content stays)";
   const char* KEY_SVBFILE = "SparseVectorBlocked::write_out(mode, filename) puts a 16 MiB stream buffer on the stack (stack overflow)";
 
@@ -336,7 +334,6 @@ namespace
     if(mtx_ok && array_free_rows && hz.mtx_csr != 0) { mtx_ok = false; c.excluded("fm_mtx of an array-free matrix with rows (reported once as finding)"); }
     if(mtx_ok && kind.find("DenseMatrix") != std::string::npos && f0.sidx.size() >= 2 && f0.sidx[1] == 0 && hz.dm_mtx_0x0 != 0) { mtx_ok = false; c.excluded("fm_mtx of the 0x0 DenseMatrix (reported once as finding)"); }
     if(mtx_ok && kind.find("SparseVector<") != std::string::npos && f0.sidx.size() >= 2 && f0.sidx[1] == 0 && hz.sv_mtx_empty != 0) { mtx_ok = false; c.excluded("fm_mtx of a SparseVector without entries (reported once as finding)"); }
-    if(exp_ok && f0.sidx.size() >= 1 && f0.sidx[0] == 0 && hz.exp_null != 0) { exp_ok = false; c.excluded("fm_exp of a length-0 vector under UBSan (reported once as finding)"); }
     if(exp_ok && kind.find("DenseVector<") != std::string::npos && f0.sidx.size() >= 1 && f0.sidx[0] == 0 && hz.dv_exp_len0 != 0) { exp_ok = false; c.excluded("fm_exp of a length-0 DenseVector (reported once as finding)"); }
     if(mtx_ok) op(c, kind + " fm_mtx", [&]{ text_rt(FileMode::fm_mtx, "fm_mtx"); });
     if(exp_ok) op(c, kind + " fm_exp", [&]{ text_rt(FileMode::fm_exp, "fm_exp"); });
@@ -537,14 +534,6 @@ int main(int argc, char** argv)
     {
       c.desc([&]{ return std::string("probe: write_combined(empty, empty); read_combined into non-empty vectors"); });
       c.check(hz.dfio_stale == 0, KEY_DFIO, [&]{ return std::string(probe_txt(hz.dfio_stale)); });
-    }
-#ifdef VERIF_ASAN
-    hz.exp_null = probe([]{ std::stringstream s1(""), s2(""); DenseVector<double, u64> a(FileMode::fm_exp, s1); DenseVectorBlocked<double, u64, 2> b(FileMode::fm_exp, s2); return a.size() == 0 && b.size() == 0; });
-#endif
-    if(c.want())
-    {
-      c.desc([&]{ return std::string("probe (sanitizer build only): ") + KEY_EXPNULL; });
-      c.check(hz.exp_null == 0, KEY_EXPNULL, [&]{ return std::string(probe_txt(hz.exp_null)); });
     }
     {
       const std::pair<int, const char*> pr[10] = {{hz.eq_csr, KEY_EQ_CSR}, {hz.eq_bcsr, KEY_EQ_BCSR}, {hz.eq_cscr, KEY_EQ_CSCR}, {hz.null_array, KEY_NULL}, {hz.dv_exp_len0, KEY_DVEXP},
